@@ -293,6 +293,9 @@ func (e *Engine) callFn(st *State, x *ssa.Call, fn *ssa.Function, bind []Value, 
 		case "vpBlockedOK":
 			st.syncInt["blockedOK"] = 1
 			return true
+		case "vpSetClock":
+			st.syncInt["clock"] = e.mustInt(st, args[0], "clock mode")
+			return true
 		case "vpQuiesce":
 			// blocks until every other goroutine is blocked or has finished (see switchThread)
 			if st.syncInt["quiesced"] == st.cur+1 {
